@@ -33,12 +33,12 @@ PROPS = {
     ),
     'C03': dict(
         H=['c03'],
-        K=dict(quick=['c03_one_txn_n7', 'c03_pairs_n2_av_av', 'c03_pairs_n2_av_as', 'c03_pairs_n2_as_av', 'c03_pairs_n2_as_as', 'c03_race_replace', 'c03_race_err'], thorough=['c03_one_txn_n8', 'c03_pairs_n2_av_av', 'c03_pairs_n2_av_as', 'c03_pairs_n2_as_av', 'c03_pairs_n2_as_as', 'c03_pairs_n2_gc_av', 'c03_pairs_n2_gs_as', 'c03_race_replace', 'c03_race_err', 'c03_race3_replace']),
+        K=dict(quick=['c03_one_txn_n7', 'c03_pairs_n2_av_av', 'c03_race_replace', 'c03_race_err'], thorough=['c03_one_txn_n8', 'c03_pairs_n2_av_av', 'c03_pairs_n2_av_as', 'c03_pairs_n2_as_av', 'c03_pairs_n2_as_as', 'c03_pairs_n2_gc_av', 'c03_pairs_n2_gs_as', 'c03_race_replace', 'c03_race_err', 'c03_race3_replace']),
         S=dict(quick=['s_exclusive'], thorough=['s_exclusive']),
         bounds='2 overlapping requests (thorough: 3 for the new-client race), every pairing of the four operations, interleaving at transaction granularity (sound given exclusivity, which s_c03_exclusive decides for the SQLite glue), <= 3 retries',
     ),
     'C04': dict(
-        K=dict(quick=['c04_atomic_ack_n7_k0', 'c04_atomic_ack_n7_k2', 'c04_atomic_ack_n4_rd'], thorough=['c04_atomic_ack_n8_k0', 'c04_atomic_ack_n8_k2', 'c04_atomic_ack_n4_rd']),
+        K=dict(quick=['c04_atomic_ack_n7_k0', 'c04_atomic_ack_n4_k2', 'c04_atomic_ack_n4_rd'], thorough=['c04_atomic_ack_n8_k0', 'c04_atomic_ack_n7_k2', 'c04_atomic_ack_n4_rd']),
         S=dict(quick=['s_exclusive'], thorough=['s_exclusive', 's_writes_newclient', 's_writes_snapshot', 's_writes_addversion']),
         bounds='crash index over the first 14 storage calls of one operation from every REACH-shaped state; TRANSACTION-LEVEL crash model only (file-system crash points inside SQLite are not encodable)',
     ),
@@ -73,7 +73,7 @@ PROPS = {
         bounds='every REACH-shaped chain <= 7 (8) (window of 5 exercised on both sides), existing snapshot at any position or none, arbitrary 128-bit v',
     ),
     'C11': dict(
-        K=dict(quick=['c11_none_n7', 'c11_prev_n7', 'c11_interleaved_n4'], thorough=['c11_none_n8', 'c11_prev_n8', 'c11_interleaved_n4']),
+        K=dict(quick=['c11_none_n7', 'c11_prev_n7', 'c11_interleaved_n2'], thorough=['c11_none_n8', 'c11_prev_n8', 'c11_interleaved_n4']),
         S=dict(quick=['s_reads_snapdata', 's_writes_snapshot'], thorough=['s_reads_snapdata', 's_writes_snapshot', 's_reads_client']),
         bounds='as C10, followed by the real get_snapshot and get_child_version; one interfering AddVersion/AddSnapshot at transaction granularity, chain <= 4',
     ),
